@@ -37,3 +37,19 @@ Theorem C10_no_attempt_after_close_all_histories : forall h, wf_from [] h ->
   c14_oracle (kmodel_trace true true kinit h) = None.
 Proof. exact no_attempt_after_close_all_histories. Qed.
 Print Assumptions C10_no_attempt_after_close_all_histories.
+
+(* EVERY history of stimuli with fresh pipe names, at EVERY quiescent point from the Close on (h1 is any prefix that contains
+   the Close, h2 whatever follows): no pipe id is in use and no pipe is listed -- whatever was attached, half attached,
+   refused, being dialled or waiting for a redial timer when Close was called, and whatever connects or resolves afterwards.
+   (count_ids / count_listed are what the model reports as `Ids n` / `Listed n`, which the correspondence check compares
+   with the implementation's own counters at every step.) *)
+From MV Require Import Proofs.CoreInv Proofs.CoreRelease.
+Theorem C10_released_at_every_point_after_close : forall h1 h2, fresh_hist kinit (h1 ++ h2) -> has_close h1 = true ->
+  count_ids (kfinal kinit h1) = 0 /\ count_listed (kfinal kinit h1) = 0.
+Proof. exact released_at_every_point_after_close. Qed.
+Print Assumptions C10_released_at_every_point_after_close.
+
+(* the premises are satisfiable: the witness history is fresh, contains a Close, and goes on after it *)
+Theorem C10_released_premise_witness : fresh_hist kinit c10_witness /\ has_close c10_witness = true.
+Proof. split; [vm_compute; repeat split|reflexivity]. Qed.
+Print Assumptions C10_released_premise_witness.
